@@ -17,17 +17,17 @@ CHECKS = {
    "DESIGN.md §4 C03"),
  "C10": ("pure+fuzz", "exploration",
    "property-based testing of every codec pair: generated message sequences under exhaustive single splits, byte-wise and random multi-splits (round trip + exact consumption), and layout-aware byte-level mutations (tags, length fields, ids, truncation) run in child processes; coverage-guided libFuzzer target codec_stream (chunked == one-shot on arbitrary bytes) in the thorough tier",
-   "29 decoder families (lane requests/responses, map messages/operations, store init/response, downlink notifications/operations, command messages, routed requests/responses, WithLengthBytesCodec, WithLenRecognizerDecoder), each fed by every encoder the repository pairs it with: streams of 1-8 messages at every single split point, one byte per read and random multi-splits must decode to exactly what was encoded with exactly the frame's bytes consumed (3e3 streams per family quick); 1.2e4 mutated streams per family (invalid/other tag, lengths 0 / len+-k / 2^32 / 2^61.. / u64::MAX-k, id and body bytes, truncation, insert, delete) must never panic, abort or hang, must decode intact prefix frames exactly, must reject invalid tags, never produce a message from a truncated or overrun frame, and raw decoders must re-encode to the bytes they consumed.",
+   "29 decoder families (lane requests/responses, map messages/operations, store init/response, downlink notifications/operations, command messages, routed requests/responses, WithLengthBytesCodec, WithLenRecognizerDecoder), each fed by every encoder the repository pairs it with: streams of 1-8 messages at every single split point, one byte per read and random multi-splits must decode to exactly what was encoded with exactly the frame's bytes consumed (3e3 streams per family quick); 1.2e4 mutated streams per family (invalid/other tag, lengths 0 / len+-k / 2^32 / 2^61.. / u64::MAX-k, id and body bytes, truncation, insert, delete) must never panic, abort or hang, must decode intact prefix frames exactly, must reject invalid tags, never produce a message from a truncated or overrun frame, and raw decoders must re-encode to the bytes they consumed. Ill-typed bodies are combined with every fragmentation and followed by frames of every kind (the error is reported for exactly that frame and the stream is re-synchronised exactly); a size regime (4095..100000 bytes for body, node, lane, host) runs through the same split laws.",
    "Trusts: the wire-layout model used to aim mutations (self-checked against the encoders). Known findings excluded by signature: the typed map decoder ignores the record size of a Clear frame; the command decoder ignores undefined flag bits; a body length on a body-less routed message (typed half).",
    "DESIGN.md §4 C10"),
  "C14": ("agentsim", "exploration",
    "stateful property-based testing on the real agent + runtime: generated bursts on supply and command lanes and agent-sent commands (send_command / Commander) with slow remotes and slow command targets answered by the harness; exactly-once / order / supersession oracle",
-   "Generated programs push bursts of 1-500 unique items (far above channel sizes) to a real SupplyLane while remotes link/unlink and read slowly: every remote linked throughout receives exactly the pushed sequence, a remote linking mid-burst a contiguous duplicate-free in-order run; bursts of command envelopes from several remotes: on_command fires exactly once per command in each remote's order; agent-sent commands (send_command and the Commander API, overwritable and not) to 1-3 targets whose channels the harness drains at a generated pace: every non-overwritable command arrives exactly once in order per target, an overwritable one may be missing only if a later command to the same target superseded it, nothing arrives twice.",
+   "Generated programs push bursts of 1-500 unique items (far above channel sizes) to a real SupplyLane while remotes link/unlink and read slowly: every remote linked throughout receives exactly the pushed sequence, a remote linking mid-burst a contiguous duplicate-free in-order run; bursts of command envelopes from several remotes: on_command fires exactly once per command in each remote's order; agent-sent commands (send_command and the Commander API, overwritable and not) to 1-3 targets whose channels the harness drains at a generated pace: every non-overwritable command arrives exactly once in order per target, an overwritable one may be missing only if a later command to the same target superseded it, nothing arrives twice. A boundary regime (320 cases) lets one agent keep 65530-65540 commanders for distinct targets and sends through those around the 16-bit id boundary.",
    "Trusts: the harness answers LinkRequest::Commander like the server runtime does (vsim/src/links.rs).",
    "DESIGN.md §4 C14"),
  "C07": ("dlrt", "exploration",
    "stateful model-based property testing: generated op lists (consumer attach/write/read/drop, remote lane model steps, stalls, time) against the real Value/MapDownlinkRuntime polled by the harness; history-invariant oracle; proptest shrinking",
-   "3e5 (quick) op lists drive the real ValueDownlinkRuntime / MapDownlinkRuntime inside a paused seeded runtime: up to 5 consumers attach through AttachAction with options from {SYNC, KEEP_LINKED} and 1..4096-byte buffers, write operations at a generated pace and may drop at any point, while a legal remote lane model answers the frames the runtime writes (link, sync with full replay, commands applied and echoed), makes spontaneous changes, unlinks, drops and stalls by partial reads/writes. Per consumer: linked, then (SYNC) synced with a state equal to some instant of the lane's history followed by exactly its later events, gap-free in emission order, unlinked at close; on the wire: link first, sync only for SYNC consumers, no fabricated/duplicated commands, per-consumer (value) and per-key/clear (map) order, only superseded commands dropped.",
+   "3e5 (quick) op lists drive the real ValueDownlinkRuntime / MapDownlinkRuntime inside a paused seeded runtime: up to 5 consumers attach through AttachAction with options from {SYNC, KEEP_LINKED} and 1..4096-byte buffers, write operations at a generated pace and may drop at any point, while a legal remote lane model answers the frames the runtime writes (link, sync with full replay, commands applied and echoed), makes spontaneous changes, unlinks, drops and stalls by partial reads/writes. Per consumer: linked, then (SYNC) synced with a state equal to some instant of the lane's history followed by exactly its later events, gap-free in emission order, unlinked at close; on the wire: link first, sync only for SYNC consumers, no fabricated/duplicated commands, per-consumer (value) and per-key/clear (map) order, only superseded commands dropped. Session laws are judged at the quiet fixpoint with the link still up; the queue sub-checks include operations with keys that are not valid UTF-8 (refused by themselves, without effect on any other operation).",
    "Trusts: the harness remote lane model only produces sequences a real lane can produce. Known findings excluded by (deliberately narrow) signatures: the read task cannot tell which synced answers whose sync (a map consumer joining mid-replay is synced with a partial map; a sync answered before the read task took the consumer from its queue never syncs it).",
    "DESIGN.md §4 C07"),
  "C12": ("enum", "exploration",
@@ -36,8 +36,8 @@ CHECKS = {
    "Trusts: op-level interleavings are all interleavings because every channel op runs under the channel's mutex; real concurrency is only sampled by the thread tier.",
    "DESIGN.md §4 C12"),
  "C17": ("enum", "exploration",
-   "bounded-exhaustive enumeration of vote/rescind/drop/poll sequences on the real coordinator against a reference model (2 and 3 parties), caller-restricted enumeration to greater depth, random sequences and a real-thread tier",
-   "Every sequence of {vote_i, rescind_i, drop_i, poll receiver} for the downlink (2 party) and agent (3 party) coordinators to depth 10 / 8 (any order) and 12 / 10 (restricted to what the runtime tasks do) - 7.7e7 sequences quick, depth 13/11 and 15/13 thorough - is executed on the real Voter/Receiver with counting wakers: a stop is unanimous only when every party has an outstanding vote or is gone, a rescind told UnanimityPending guarantees the stop has not begun and does not begin until that party votes again, unanimity is never undone, a dropped party counts as voting, and a parked receiver is woken when the latch sets. 3e6 random sequences to length 60 and 3e4 OS-thread runs with schedule-independent invariants.",
+   "bounded-exhaustive enumeration of vote/rescind/drop/poll sequences on the real coordinator against a reference model (2 and 3 parties), caller-restricted enumeration to greater depth, random sequences, a real-thread tier, and model-based histories on the real downlink runtime and the real agent runtime (paused clock) for the callers' vote discipline",
+   "Every sequence of {vote_i, rescind_i, drop_i, poll receiver} for the downlink (2 party) and agent (3 party) coordinators to depth 10 / 8 (any order) and 12 / 10 (restricted to what the runtime tasks do) - 7.7e7 sequences quick, depth 13/11 and 15/13 thorough - is executed on the real Voter/Receiver with counting wakers: a stop is unanimous only when every party has an outstanding vote or is gone, a rescind told UnanimityPending guarantees the stop has not begun and does not begin until that party votes again, unanimity is never undone, a dropped party counts as voting, and a parked receiver is woken when the latch sets. 3e6 random sequences to length 60 and 3e4 OS-thread runs with schedule-independent invariants. 1e6 generated histories drive the real Value/MapDownlinkRuntime through the window in which its read task has voted and its write task has not (a runtime with an established, still listening consumer must not stop), and 2e5 histories drive the real AgentRouteTask on a millisecond-exact paused clock with envelopes for known and unknown lanes, timer-made lane events and HTTP requests around the timeouts (an agent that stops at t had no own activity of its read, write or HTTP task inside (t - timeout, t)).",
    "Trusts: only sequentially consistent interleavings are explored (Relaxed atomics on x86); the three-step Receiver::poll race is only sampled by the thread tier (caught at thorough).",
    "DESIGN.md §4 C17"),
  "C11": ("pure+socket+multireader", "exploration",
@@ -46,7 +46,7 @@ CHECKS = {
    "Trusts: the ratchet websocket layer (NoExt, unfragmented frames); bodies starting with a blank or not UTF-8 are outside the generator domain.",
    "DESIGN.md §4 C11"),
  "C13": ("store", "exploration",
-   "model-based stateful property testing: generated histories of id_for/put/get/delete/update/remove/clear/read_map with reopen points against an in-memory reference map, on RocksDB and on the in-memory store; child-process SIGKILL at generated points",
+   "model-based stateful property testing: generated histories of id_for/put/get/delete/update/remove/clear/read_map with reopen points against an in-memory reference map, on RocksDB and on the in-memory store; child-process SIGKILL at generated points; bulk size regime; real-thread registration tier",
    "1.2e4 (quick) histories on a real RocksDB directory per case with real close/reopen, 2e5 on the in-memory store, over 1-3 agent uris x 1-4 items with adversarial names and keys (empty, shared prefixes, a/b vs a+b, 0x00/0xFF, lengths around the key prefix size): after every mutating op or reopen every item used so far is read back and compared with the model (the addressed item and all others = isolation), ids must be stable across reopen and injective. 3e3 kill cases re-execute the binary as a child that acknowledges each op on a pipe and is SIGKILLed at generated points: every acknowledged op must be present, the unacknowledged one atomically present or absent.",
    "Trusts: kill moments are sampled, not enumerated (async-kill replays may not reproduce; self-kill cases do); power loss is out of scope; read_map order is not asserted (the trait gives none). Known finding excluded by signature: RocksDB allocates ids for uri+\"/\"+name, so (/a,b/c) and (/a/b,c) share one id and one value/map.",
    "DESIGN.md §4 C13"),
@@ -57,7 +57,7 @@ CHECKS = {
    "DESIGN.md §4 C16"),
  "C05": ("agentsim+faults", "fault_enumeration",
    "stateful property-based testing with crash-point injection: generated update histories against the real agent + runtime with a recording, fault-injecting NodePersistence; cuts (panic inside store call #n, store error, drop after poll #p / frame #f, clean stop, timeout), restart on the surviving store and comparison with the fold of the acknowledged log",
-   "Each evaluation is one (history, cut) execution including restart: C01/C02-style histories over persistent and transient value/map lanes and stores run through run_agent_with_store with a harness store that logs every call with the global sequence number and can fail inside call #n. After the cut a fresh agent is started on the surviving data, a new remote syncs every lane and every item is read in on_start and by a probe. Oracles: every event frame of a persistent lane was handed to the store before any remote read it; every persistent item restarts as the fold of the applied log (never older than anything a subscriber saw); transient items restart at their defaults. Quick samples cuts (4.6e5 evaluations) and enumerates all cuts for 600 histories; thorough enumerates every store cut x 3 fault modes, every frame cut, stop after every op for 6e4 histories.",
+   "Each evaluation is one (history, cut) execution including restart: C01/C02-style histories over persistent and transient value/map lanes and stores run through run_agent_with_store with a harness store that logs every call with the global sequence number and can fail inside call #n. After the cut a fresh agent is started on the surviving data, a new remote syncs every lane and every item is read in on_start and by a probe. Oracles: every event frame of a persistent lane was handed to the store before any remote read it; every persistent item restarts as the fold of the applied log (never older than anything a subscriber saw); transient items restart at their defaults. Quick samples cuts (4.6e5 evaluations) and enumerates all cuts for 600 histories; thorough enumerates every store cut x 3 fault modes, every frame cut, stop after every op for 6e4 histories. Further sub-checks: twin-items (value lane and value store sharing the runtime item id; id_for faults at the write task's start-up lookup), optional-values (map and value lanes of Option<i64>: empty Recon bodies), late-lane (a raw agent registering a persistent lane after start), and stop-vote windows in which the read task, the agent or the HTTP task completes the inactivity vote.",
    "Trusts: the harness store is an ideal store (real stores are C13); cut points are poll boundaries, store calls and frame reads of a single-threaded schedule, not arbitrary instructions.",
    "DESIGN.md §4 C05"),
  "C06": ("agentsim+refint", "exploration",
@@ -92,7 +92,7 @@ CHECKS = {
    "DESIGN.md §4 C18"),
  "C20": ("enum+agentsim+threads", "exploration",
    "model-based testing: bounded-exhaustive and random operation histories on the real Links structure with real uplink reporters against a reference relation, generated agent histories with introspection enabled, and a thread stress tier",
-   "Every history of register/insert/remove/remove_remote/remove_lane/remove_all/count ops to depth 7 (2 lanes x 2 remotes) and 6 (3x3), plus 3e5 random histories to length 80, is executed on the real Links with real UplinkReporters: after every op each lane reader's link count must equal the reference relation, the aggregate the total, and the sum of snapshot event counts the number counted. The same is checked on the running SimAgent with NodeReporting under link/unlink/drop/prune/stop histories at quiescent checkpoints, and k threads counting against one snapshotting thread must lose nothing.",
+   "Every history of register/insert/remove/remove_remote/remove_lane/remove_all/count ops to depth 7 (2 lanes x 2 remotes) and 6 (3x3), plus 3e5 random histories to length 80, is executed on the real Links with real UplinkReporters: after every op each lane reader's link count must equal the reference relation, the aggregate the total, and the sum of snapshot event counts the number counted. The same is checked on the running SimAgent with NodeReporting under link/unlink/drop/prune/stop histories at quiescent checkpoints, and k threads counting against one snapshotting thread must lose nothing. pulse-lanes: 2e4 histories run the real NodeMetaAgent and LaneMetaAgent pulse lanes of swimos_introspection next to the real agent and runtime; the counts of all published pulses plus the remainder equal what was counted, and every pulse carries the link count of its moment.",
    "Trusts: the Links ops are used with the discipline of agent/task/mod.rs (listed in c20/src/links.rs); only SC interleavings of the Relaxed atomics are reachable on this hardware.",
    "DESIGN.md §4 C20"),
  "C01": ("agentsim", "exploration",
